@@ -8,7 +8,7 @@ Clauses(e, lrn, lf, ph, st) ==
        If(e.panicked, "C03_no_crash")
   \cup If(e.nonCanon # 0, "C03_store_holds_only_verified_chain_headers")
   \cup If(Len(e.holes) # 0 \/ Len(e.orphans) # 0, "C03_store_is_one_gap_free_run_Tail_to_Head")
-  \cup If(e.e = "gossip" /\ e.kind \in {"forged", "forgedFar", "wrongchain", "future", "stale"} /\ e.res = "nil", "C03_failing_gossip_header_refused_with_error")
+  \cup If(e.e = "gossip" /\ e.kind \in {"forged", "forgedFar", "wrongchain", "future", "stale", "fork"} /\ e.res = "nil", "C03_failing_gossip_header_refused_with_error")
   \cup If(e.badStored, "C03_refused_header_never_stored")
   \cup If(e.badTarget, "C03_refused_header_never_sync_target")
   \cup If(e.head > lrn, "C03_store_never_ahead_of_verified_heads")
